@@ -11,7 +11,8 @@
      legacy_match t n = n.split(".")[0] == "peewee-sqlite"+("-testing" if t) and n.split(".")[1] == "v2" *)
 From AwVerif Require Import Base.Prelude Model.StoreBase Model.SqliteStore Model.PeeweeStore
   Model.Migration Model.MigrationCommit
-  Proofs.MigrationNames Proofs.MigrationCopy Proofs.MigrationOpen Proofs.MigrationDurable.
+  Proofs.MigrationNames Proofs.MigrationCopy Proofs.MigrationOpen Proofs.MigrationDurable
+  Proofs.MigrationReachable.
 From AwVerif Require Model.Commit.
 From Coq Require Import Permutation.
 
@@ -82,6 +83,24 @@ Theorem C14_lossless : forall pw,
       end.
 Proof. exact migrate_lossless. Qed.
 Print Assumptions C14_lossless.
+
+(* The hypothesis is met by every legacy store the API can produce: for EVERY history of
+   storage calls (any arguments, failing calls included) on an empty peewee store, migrating
+   the resulting tables loses nothing.  (Distinct bucket ids are part of the peewee model's
+   representation invariant, Proofs/StorePeeweeProofs.v.) *)
+Theorem C14_lossless_all_histories : forall h,
+  let pw := pw_run pw_init h in
+  exists sq,
+    migrate pw sq_init = (pw_open pw, sq, Ok tt) /\
+    map br_id (sq_buckets sq) = map pb_id (pw_buckets pw) /\
+    forall b,
+      match pw_view pw b with
+      | Some (m, es) => exists es', sq_view sq b = Some (m, es') /\
+                                    Permutation (map payload es') (map payload es)
+      | None => sq_view sq b = None
+      end.
+Proof. exact migrate_lossless_reachable. Qed.
+Print Assumptions C14_lossless_all_histories.
 
 (* None dropped and none duplicated: per bucket the number of events is the same and every
    (instant, duration, data) triple occurs exactly as often as in the legacy bucket. *)
